@@ -11,6 +11,7 @@ package core
 
 import (
 	"strconv"
+	"sync"
 	"time"
 )
 
@@ -103,4 +104,146 @@ func VH_C20_breaker_recovery_bound(k int) {
 // arbitrary polling. Witness harness of known finding C20/poll-starvation.
 func VH_C20_breaker_recovery_witness(k int) {
 	vhBreakerRun(k, false, false, "admits-again-after-window")
+}
+
+// ---- capacity -------------------------------------------------------------------------
+//
+// Unit: Location.{AtCapacity,AddFact,AddRule,RemFact}, State.Count, on the real states.
+
+// VH_C20_capacity: MaxFacts symbolic small; a history of adds/removes around the
+// boundary; the location never holds more than MaxFacts items after a public add, and an
+// add refused for capacity leaves memory and storage as they were.
+func VH_C20_capacity(kind, op1, op2, op3 int) {
+	env := vhNewEnv(kind)
+	c := DefaultControl()
+	max := vsymInt("maxFacts", 0, 3)
+	c.MaxFacts = max
+	env.loc.SetControl(c)
+	ids := []string{"i0", "i1", "i2"}
+	for step, op := range []int{op1, op2, op3} {
+		id := ids[vchoose(3)]
+		before := env.state.Count(env.ctx)
+		_, had := env.store.State(env.ctx)[env.name][id]
+		switch op {
+		case 0: // add fact
+			_, err := env.loc.AddFact(env.ctx, id, Map{"a": "v" + string(rune('0'+step))})
+			if err != nil {
+				// refused: nothing changed
+				vassert(env.state.Count(env.ctx) == before, "refused-add-leaves-count")
+				_, has := env.store.State(env.ctx)[env.name][id]
+				vassert(has == had, "refused-add-leaves-storage")
+				vassert(before >= max, "add-refused-only-at-capacity")
+			}
+		case 1: // add rule
+			_, err := env.loc.AddRule(env.ctx, id, vhRule(map[string]interface{}{"a": "?x"}, "act"))
+			if err != nil {
+				vassert(env.state.Count(env.ctx) == before, "refused-add-leaves-count")
+				_, has := env.store.State(env.ctx)[env.name][id]
+				vassert(has == had, "refused-add-leaves-storage")
+				vassert(before >= max, "add-refused-only-at-capacity")
+			}
+		case 2: // remove
+			env.loc.RemFact(env.ctx, id)
+		case 3:
+		}
+		if op == 0 || op == 1 {
+			n := env.state.Count(env.ctx)
+			// never above the maximum after a public add — except that it was already
+			// above (the maximum was lowered), which cannot happen here
+			vassert(n <= max || n <= before, "count-within-maximum")
+		}
+	}
+	vreach("end")
+}
+
+// ---- throttle [concurrency mode] ---------------------------------------------------------
+//
+// Unit: Throttle.{Submit,Pending} over a harness Breaker whose admissions are explored
+// decisions; n concurrent submitters.
+
+type vhScriptBreaker struct {
+	mu sync.Mutex
+}
+
+func (b *vhScriptBreaker) Status() BreakerStatus { return BreakerStatus{Closed: true} }
+func (b *vhScriptBreaker) Disable(bool)          {}
+func (b *vhScriptBreaker) Do(f func() error) (bool, error) {
+	b.mu.Lock()
+	admit := vchoose(2) == 1
+	b.mu.Unlock()
+	if !admit {
+		return false, nil
+	}
+	if f != nil {
+		return true, f()
+	}
+	return true, nil
+}
+
+// VH_C20_throttle: n submitters, pending limit lim, attempts 2.
+func VH_C20_throttle(n, lim int) {
+	vsetNow(vhBase)
+	t, err := NewThrottle(2, lim, time.Duration(10), &vhScriptBreaker{})
+	vassume(err == nil)
+	runs := make([]int, n)
+	results := make([]error, n)
+	var mu sync.Mutex
+	maxPending := 0
+	var wg sync.WaitGroup
+	wg.Add(n)
+	for i := 0; i < n; i++ {
+		go func(i int) {
+			results[i] = t.Submit(func() error {
+				p, _ := t.Pending()
+				mu.Lock()
+				runs[i]++
+				if p > maxPending {
+					maxPending = p
+				}
+				mu.Unlock()
+				return nil
+			})
+			wg.Done()
+		}(i)
+	}
+	wg.Wait()
+	for i := 0; i < n; i++ {
+		vassert(runs[i] <= 1, "submitted-function-runs-at-most-once")
+		if results[i] == nil {
+			vassert(runs[i] == 1, "success-means-it-ran")
+		} else {
+			vassert(runs[i] == 0, "failure-means-it-did-not-run")
+		}
+	}
+	vassert(maxPending <= lim+1, "pending-within-limit-plus-one")
+	p, _ := t.Pending()
+	vassert(p == 0, "nothing-pending-at-the-end")
+	vreach("end")
+}
+
+// VH_C20_breaker_conc: n goroutines call the breaker at the same instant; at most `limit`
+// are admitted whatever the schedule, and no race is reported.
+func VH_C20_breaker_conc(n, limit int) {
+	b, err := NewOutboundBreaker(int64(limit), time.Duration(vhInterval))
+	vassume(err == nil)
+	vsetNow(vhBase)
+	adm := make([]bool, n)
+	var wg sync.WaitGroup
+	wg.Add(n)
+	for i := 0; i < n; i++ {
+		go func(i int) {
+			adm[i] = b.Zap()
+			wg.Done()
+		}(i)
+	}
+	wg.Wait()
+	c := 0
+	for _, a := range adm {
+		if a {
+			c++
+		}
+	}
+	vassert(c <= limit, "at-most-limit-admissions-under-concurrency")
+	vassert(c == limit || c == n, "admits-up-to-the-limit")
+	vreach("end")
 }
